@@ -23,11 +23,11 @@ SEG_KINDS = ("Move", "Line", "Arc", "Close", "QuadraticBezier", "CubicBezier")
 
 
 class Scenario:
-    def __init__(self, rel=False, z=None, last=None, neg=False, extra=False):
-        self.rel, self.z, self.last, self.neg, self.extra = rel, z, last, neg, extra
+    def __init__(self, rel=False, z=None, last=None, neg=False, extra=False, nocur=False):
+        self.rel, self.z, self.last, self.neg, self.extra, self.nocur = rel, z, last, neg, extra, nocur
 
     def __repr__(self):
-        return "relative=%s z=%s previous=%s" % (self.rel, self.z, self.last)
+        return "relative=%s z=%s previous=%s%s" % (self.rel, self.z, self.last, " no current point" if self.nocur else "")
 
 
 class Summary:
@@ -36,6 +36,7 @@ class Summary:
         self.stride = None
         self.exit = None  # 'fall' | 'return' | 'raise'
         self.cur_guard = None  # exception name raised when the current point is missing, or None
+        self.cur_deref = []  # (line, text): the current point used as a point on the followed path (scenario nocur: it is None there)
         self.ztests = set()  # operand slots tested against 'z'/'Z'
         self.delegates = []  # (method, unparsed args) self.<builder>(...) calls
         self.loop = None
@@ -168,6 +169,8 @@ def summarise(ctx, rule, bname, sc, zaccessors=("_segment_close_point", "z_point
             return ("last",)
         if isinstance(node, ast.Attribute) and isinstance(node.value, ast.Name) and ev.vals.get(node.value.id) == ("last",):
             return ("lastfield", node.attr)
+        if isinstance(node, ast.Subscript) and isinstance(node.value, ast.Name) and ev.vals.get(node.value.id) == ("last",):
+            return ("lastfield", ast.unparse(node.slice))
         return None
 
     def _is_last(node):
@@ -215,8 +218,14 @@ def summarise(ctx, rule, bname, sc, zaccessors=("_segment_close_point", "z_point
         if isinstance(node, ast.Compare) and len(node.ops) == 1 and isinstance(node.ops[0], (ast.Is, ast.IsNot)) and isinstance(node.comparators[0], ast.Constant) \
                 and node.comparators[0].value is None:
             v = ev.vals.get(node.left.id) if isinstance(node.left, ast.Name) else hook(ev, node.left)
+            if isinstance(v, tuple) and v and v[0] == "lastfield":
+                # a control point of the previous segment: present in the scenarios that have a previous curve (the parsed-data case;
+                # the stored control of a curve built with no current point is the subject of C09)
+                return (sc.last is not None) == isinstance(node.ops[0], ast.IsNot)
             if v == ("cur",):
                 cur_tests.append(node)
+                if sc.nocur:
+                    return isinstance(node.ops[0], ast.Is)
                 return isinstance(node.ops[0], ast.IsNot)  # a current point exists in the scenario
             if v == ("last",):
                 return (sc.last is None) == isinstance(node.ops[0], ast.Is)
@@ -270,6 +279,45 @@ def summarise(ctx, rule, bname, sc, zaccessors=("_segment_close_point", "z_point
 
     ev = SegEval(ctx, rule, "Path.%s[%r]" % (bname, sc), SEG_KINDS, lambda t: boolean(t, leaf), alg=alg, value_hook=hook, on_call=on_call)
     evs.append(ev)
+
+    def is_cur(n):
+        return (isinstance(n, ast.Name) and ev.vals.get(n.id) == ("cur",)) or attr_chain(n) == ["self", "current_point"]
+
+    def on_stmt(ev_, st):
+        # the current point used as a point (attribute, arithmetic, subscript) in what this statement evaluates itself
+        parts = [st.test] if isinstance(st, ast.If) else [st.iter] if isinstance(st, ast.For) else [st]
+        def reached(n):
+            # sub-expressions this statement evaluates on the followed path (the untaken arm of a conditional expression is not)
+            yield n
+            if isinstance(n, ast.IfExp):
+                d = boolean(n.test, leaf)
+                kids = [n.test] + ([n.body, n.orelse] if d is None else [n.body if d else n.orelse])
+            elif isinstance(n, ast.BoolOp):
+                kids = []
+                for v in n.values:
+                    kids.append(v)
+                    d = boolean(v, leaf)
+                    if d is not None and d == isinstance(n.op, ast.Or):
+                        break
+            else:
+                kids = list(ast.iter_child_nodes(n))
+            for k in kids:
+                for x in reached(k):
+                    yield x
+
+        for part in parts:
+            for n in reached(part):
+                if isinstance(n, ast.Attribute) and is_cur(n.value):
+                    out.cur_deref.append((n.lineno, ast.unparse(n)))
+                elif isinstance(n, ast.BinOp) and (is_cur(n.left) or is_cur(n.right)):
+                    out.cur_deref.append((n.lineno, ast.unparse(n)[:60]))
+                elif isinstance(n, ast.Subscript) and is_cur(n.value):
+                    out.cur_deref.append((n.lineno, ast.unparse(n)))
+                elif isinstance(n, ast.AugAssign) and is_cur(n.value):
+                    out.cur_deref.append((n.lineno, ast.unparse(n)[:60]))
+
+    if sc.nocur:
+        ev.on_stmt = on_stmt
     if direct is not None:
         ev.vals[direct] = ("op", 0)
     body = []
@@ -281,6 +329,7 @@ def summarise(ctx, rule, bname, sc, zaccessors=("_segment_close_point", "z_point
     # raise on a missing current point: find the exception by running the scenario "no current point" is not needed: read it off the guard
     res = ev.run(body)
     out.exit = res[0]
+    out.exit_node = res[1]
     for t in cur_tests:
         p = getattr(t, "_parent", None)
         while p is not None and not isinstance(p, ast.If):
